@@ -24,7 +24,7 @@ CONSTANT PrintEdges
 VARIABLES mode,     \* driver: sleep | standby | transmit | rx_single | rx_cont | rx_duty | cad | listen
           cold,     \* driver: configuration lost, cold-start programming pending
           calimg,   \* driver: image calibration pending
-          cm,       \* chip: stdby | sleep_warm | sleep_cold | tx | rx | rxc | rxdc | cad
+          cm,       \* chip: stdby | sleep_warm | sleep_cold | tx | rx | rxc | rxdc | cad | cw
           conf,     \* chip: configuration programmed since the last cold start / reset
           hist
 pvars == <<mode, cold, calimg, cm, conf, hist>>
@@ -103,6 +103,13 @@ Listen ==
     /\ mode' = "listen" /\ cold' = FALSE /\ calimg' = FALSE /\ cm' = "rxc" /\ conf' = PmConf
     /\ Log("listen", <<>>)
 
+\* continuous_wave: prepares like a transmission and starts the unmodulated carrier at once; the driver has no
+\* mode of its own for it and records Transmit (open finding tx-after-cw-unprepared: a tx() straight after it is
+\* accepted)
+Cw ==
+    /\ mode' = "transmit" /\ cold' = FALSE /\ calimg' = FALSE /\ cm' = "cw" /\ conf' = PmConf
+    /\ Log("cw", <<>>)
+
 Cad(irq) ==
     /\ IF mode = "cad"
        THEN mode' = "standby" /\ cm' = "stdby" /\ UNCHANGED <<cold, calimg, conf>>
@@ -124,7 +131,7 @@ Next ==
     \/ Tx(TxDone) \/ Tx(Timeout)
     \/ StartRx
     \/ CompleteRx(RxDone, TRUE) \/ CompleteRx(Timeout, FALSE)
-    \/ SwitchCh \/ Listen
+    \/ SwitchCh \/ Listen \/ Cw
     \/ Cad(CadDone)
 Spec == Init /\ [][Next]_pvars
 
@@ -133,10 +140,11 @@ Spec == Init /\ [][Next]_pvars
 Agree ==
     /\ mode = "sleep" <=> Asleep
     /\ mode = "standby" => cm = "stdby"
-    /\ mode \in {"transmit", "cad"} => cm = "stdby"          \* prepared, not started (the operations complete within their call)
+    /\ mode = "cad" => cm = "stdby"                          \* prepared, not started (the operations complete within their call)
+    /\ mode = "transmit" => cm \in {"stdby", "cw"}           \* ... or the carrier started by continuous_wave
     /\ mode = "listen" => cm = "rxc"
 \* an operation only runs on a chip that was reprogrammed after its last cold start
-OperatesConfigured == cm \in {"tx", "rx", "rxc", "rxdc", "cad"} => conf
+OperatesConfigured == cm \in {"tx", "rx", "rxc", "rxdc", "cad", "cw"} => conf
 \* whenever the driver believes the configuration is in place, it is
 ColdStartTracked == (~cold /\ ~Asleep) => conf
 
